@@ -16,6 +16,10 @@ CHECKS = {
    text="One inductive step of every map operation (Get/Has of absent keys, Set new, Set existing, Remove present, Remove absent) from ANY map of single elements satisfying the representation invariant within the shape bound; all four digest levels of every key and all key/value sizes are symbolic, so one verdict covers every hash distribution: results equal the dictionary model, key-not-found exactly for absent keys, VerifyMap (which re-hashes every key) + content + reopen-by-root-id hold afterwards.",
    note="Bounds: T=256; root leaf with 0..3 (quick) / 0..4 (thorough) keys or root index slab over 2 / 2..3 leaves of 2..3 / 2..4 keys; new value size 1..65536. Pre-states hold single elements only; collision groups are reached through C12's API-built histories. Outside: deeper trees, nested containers as values.",
    ref="6/C02"),
+ "C06": dict(
+   text="Incremental-size half of the property: after every step of the C01/C02 step harnesses and every operation of the C10 nested histories (element sizes symbolic, so every size mix), each slab's cached size equals the size recomputed from scratch (prefix by kind root/non-root/inlined + element sizes + digests), at every nesting level, including the prefix swaps on root split / promotion and inline<->standalone transitions; the recomputation is the repository's verifier executed symbolically, every 'size is wrong' branch must be infeasible.",
+   note="Bounds as C01, C02, C10. Outside for now: the byte-level half (bytes emitted by the real encoders equal the reported size) needs the CBOR stream model and is not yet covered; compact-map hoisting.",
+   ref="6/C06"),
  "C09": dict(
    text="After every step of the C01/C02 step harnesses and every history of the C10 harness (with returned storables disposed of), the set of slabs in storage equals the set reachable from the root: counted by an independent walk over index-slab children, slab references (incl. wrapped), inlined containers and large-value slabs; a dangling reference fails the walk.",
    note="Bounds: as C01, C02, C10. Outside: external collision groups and bulk pop of multi-slab containers (being added).",
@@ -24,6 +28,10 @@ CHECKS = {
    text="All histories of up to 2 (quick) / 3 (thorough) operations {child append/remove/set/bulk-pop, parent insert-before/remove-before/append} on a nested array reached through a live handle (the insertion handle or one obtained by lookup), child element sizes symbolic so the child crosses the inline limit in both directions by solver choice: after every operation the parent passes VerifyArray (recursing into the child, checking inline status and sizes), reading through the parent equals the model and the child's value id is unchanged. A second harness keeps two live handles and reports the recorded known finding (stale handle after root replacement) separately from any disagreement while both handles share the root.",
    note="Bounds: T=256, nesting depth 2 (array in array), 0..1 (quick) / 0..2 (thorough) siblings. Outside: maps as parent/child (being added), depth 3, wrapped children.",
    ref="6/C10"),
+ "C11": dict(
+   text="All histories of 2 (quick) / 3 (thorough) operations after a nested array (inlined or standalone by solver-chosen sizes) was detached from its parent by Remove or by overwrite, using a stale handle (the attached one or one obtained by lookup): stale append / remove / bulk pop, parent mutations in between, and a new child placed at the old position followed by a stale mutation. After every operation the former parent passes VerifyArray with unchanged content and size bookkeeping; the detached child keeps its value id, is standalone, reloadable by identifier with the expected content, and can be re-attached to a new parent and mutated through the same handle.",
+   note="Bounds: T=256, child with 0..2 elements at detachment, 0..1 siblings on each side. Outside: maps as parent/child, wrapped children, bulk-pop of the parent followed by a stale handle.",
+   ref="6/C11"),
  "C12": dict(
    text="All insert histories of 2 (quick) / 3 (thorough) keys through the public API followed by 2 / 1 further operations (update, remove, absent lookup) with EVERY assignment of digests over 1, 2 or 4 levels symbolic and the collision limit symbolic in 0..255: dictionary semantics and VerifyMap after every operation; an insert is refused with CollisionLimitError exactly when the first-level digest is already shared by more than the limit of entries with distinct second-level digests, leaving the map unchanged; updates are always accepted.",
    note="Bounds: T=256, value sizes 1..300, keys within the inline key limit. Outside: more keys per group (limits above the number of keys behave as 'never reached'), external collision groups larger than the bound.",
@@ -36,6 +44,10 @@ CHECKS = {
    text="Both commits on the real storage with modelled goroutines, ALL Go map iteration orders of the write set explored (range over map forks over every remaining entry) and all sync-level interleavings of the encoder workers (up to partial-order equivalence): the deterministic commit issues exactly one ledger call per owned pending entry in strictly ascending (owner, index) order; the relaxed commit issues the same set in some order; the resulting registers depend only on the write set.",
    note="Bounds: 3 pending entries over 2 owners (+ optional temporary one), 1 (quick) / 1..2 (thorough) workers. Outside: pool reuse and encoder-internal map ranges (need the byte-level encoders, see C06/C07 stage), fresh-process effects.",
    ref="6/C04"),
+ "C13": dict(
+   text="On every array/map shape of the step harnesses: mutable, read-only, range (all valid bounds), keys-only, values-only and loaded-value iteration each yield exactly the model sequence (arrays in index order, maps in ascending digest order); loaded-value iteration with EVERY subset of leaves reported as not loaded yields exactly the in-order subsequence of loaded leaves; overwriting the current element at any position during mutable iteration with a value of symbolic size (which may split the leaf under the cursor) neither skips nor repeats; bulk pop yields reverse order, leaves a valid empty container and releases every auxiliary slab.",
+   note="Bounds: as C01/C02 shapes (T=256). Outside: collision groups spanning slabs, mutation of nested children during iteration and the read-only-iterator mutation error (being added), invalid ranges (asserted under C18).",
+   ref="6/C13"),
  "C14": dict(
    text="Symbolic fault schedule: every ledger write/delete of a commit fails or not by a symbolic bit, for both commits, then the commit is retried with fresh symbolic faults until a fault-free attempt: a failed call makes the commit return an ExternalError; after every attempt each owned entry is either written (left the write set, register = latest, cache updated) or still pending with its register untouched; reads keep returning the latest values; the fault-free retry leaves registers equal to the single fault-free commit and the owned write set empty; temporary entries stay pending and unwritten.",
    note="Bounds: 2 (quick) / 3 (thorough) pending entries (stores/deletes, optional temporary), 1 / 1..2 workers as modelled goroutines, 1 / 2 faulty attempts before the fault-free one. Outside: encode errors here (covered in C16), more entries/workers.",
@@ -48,6 +60,14 @@ CHECKS = {
    text="FastCommit and NondeterministicFastCommit with 2 workers as modelled goroutines: every sync-level interleaving (up to partial-order equivalence) of workers and committer is explored with a vector-clock happens-before detector on every heap and map access; a data race, deadlock, send on closed channel or panic in a worker is a violation (races are confirmed natively with the Go race detector before being reported). The parallel result (registers, write set, cache, error) equals the sequential overlay model, with symbolic encode failures per slab.",
    note="Bounds: 2 (quick) / 3 (thorough) pending entries, 2 workers; scheduling points at channel send/receive, blocking select and WaitGroup.Wait (close, non-blocking select and Done are ordered with their goroutine's neighbouring points). EncodeSlab is the abstract codec, so races inside the real encoders/pools are not seen here. Outside: BatchPreload's parallel path, independent client goroutines sharing the process-wide pools (sequential pool discipline only), GOMAXPROCS/real-scheduler effects.",
    ref="6/C16"),
+ "C17": dict(
+   text="NewArrayFromBatchData on every stream of 0..7 (quick) / 0..10 (thorough) elements of symbolic size (incl. larger than the inline limit): result passes VerifyArray, equals the stream, leaks nothing and accepts a further operation; NewMapFromBatchData on 0..3 / 0..4 keys with all digests symbolic: unsorted first-level digests are rejected with HashError, otherwise VerifyMap, content, given seed, and source order (without first-level collisions); CopyNonRefSimple is offered exactly for single-slab arrays whose elements are all plain (symbolic mix of plain, wrapped, large-value reference and nested array), then succeeds with a valid, equal, fresh-id copy that is independent of the source under mutation of either; byte slice <-> byte array round-trips for symbolic bytes and symbolic size estimate (both build paths), rejecting foreign elements as a caller mistake.",
+   note="Bounds: T=256; lengths as stated (so multi-level index tails only up to what 10 elements produce). Outside: tens of thousands of elements, map copy, underfull last index slab at higher levels.",
+   ref="6/C17"),
+ "C18": dict(
+   text="Array Get/Set/Remove with ANY index >= count and Insert with any index > count (64-bit symbolic), range iterators with any out-of-range or inverted bounds, map Get/Remove of an absent key with arbitrary digests (below all, between, equal to an existing digest), insert at collision limit 0, and reopening an undefined identifier: each returns the specific error type under the documented category (UserError for caller mistakes, FatalError for limit/internal), issues no Store/Remove on the storage, and leaves every slab header and the content unchanged (VerifyArray/VerifyMap + model). A failure injected into the comparator, the hash-input provider or the storage read during a lookup is reported as ExternalError.",
+   note="Bounds: shapes as C01/C02 (T=256). 'Pending write set unchanged' is observed as 'no Store/Remove call reached the storage' on a logging wrapper around BasicSlabStorage.",
+   ref="6/C18"),
  "C20": dict(
    text="CheckStorageHealth on every valid forest of slab doubles within the bound (accepted, true root set returned, wrong expected root count rejected) and on every single corruption of the four kinds the property names (deleted referenced slab, extra unreferenced slab, slab referenced from two places, cross-owner reference), each applied at every position: rejected.",
    note="Bounds: 3 (quick) / 5 (thorough) slabs, every parent assignment, one reference optionally nested in a non-reference wrapper, expected root count symbolic in -1..n+1. Outside: larger graphs; cyclic graphs (not produced by valid histories or the named corruptions; the engine observed that CheckStorageHealth does not terminate on some cycles, recorded in DESIGN.md as an observation outside C20).",
